@@ -493,3 +493,60 @@ def _(c):
             ok_axes = ok_axes and bool(np.linalg.norm(np.asarray(there, dtype=float)[:3] - want) <= 1e-6)
     c.ensure("round_trip_without_loss", ok_rt)
     c.ensure("axes_are_those_of_the_orbit_at_that_date", ok_axes)
+
+
+def _grid_forms_man(tier, rng):
+    """maneuver kinds {impulsive, continuous, keplerian impulsive, keplerian continuous} x axes {TNW, QSW, inertial} x the form the state is handed over in {cartesian,
+    keplerian, keplerian_mean, spherical, equinoctial} x 2 orbits"""
+    for kind in range(4):
+        for tag in range(3):
+            for form in range(5):
+                for o in range(2):
+                    if kind >= 2 and tag:
+                        continue
+                    yield {"kind": kind, "tag": tag, "form": form, "orbit": o}
+
+
+@contract("C17", "man.any_form", funcs=[f"{MAN}:ImpulsiveMan.dv", f"{MAN}:ContinuousMan.accel", f"{MAN}:KeplerianImpulsiveMan.dv", f"{MAN}:KeplerianContinuousMan.accel"],
+          grid=_grid_forms_man, level="bounded")
+def _(c):
+    """bounded: the delta-v / acceleration a maneuver contributes is a property of the state, not of the element form it is handed over in: the same vector (1e-9 relative)
+    for the cartesian, keplerian, mean, spherical and equinoctial views of one state, along independently computed T/N/W or Q/S/W axes with exactly the stated components"""
+    from beyond.orbits import StateVector
+    from beyond.dates import Date, timedelta
+    from beyond.orbits.man import ImpulsiveMan, ContinuousMan, KeplerianImpulsiveMan, KeplerianContinuousMan
+    from beyond.constants import Earth
+    from contracts.c19_mission import _kep2cart
+    a, e, i, O, w_, nu = [(7.0e6, 0.1, 0.9, 1.0, 2.0, 0.5), (2.66e7, 0.72, 1.1, 2.0, 4.7, 2.8)][c.integer("orbit")]
+    r0, v0 = _kep2cart(a, e, i, O, w_, nu, Earth.mu)
+    d0 = Date(2018, 5, 4)
+    cart = StateVector(list(r0) + list(v0), d0, "cartesian", "EME2000")
+    form = ["cartesian", "keplerian", "keplerian_mean", "spherical", "equinoctial"][c.integer("form")]
+    view = cart.copy(form=form)
+    tag = ["TNW", "QSW", None][c.integer("tag")]
+    comp = np.array([0.7, -0.2, 0.4])
+    kind = c.integer("kind")
+    if kind == 0:
+        f = lambda s: np.asarray(ImpulsiveMan(d0, comp, frame=tag).dv(s), dtype=float)
+    elif kind == 1:
+        f = lambda s: np.asarray(ContinuousMan(d0, timedelta(seconds=10), accel=comp, frame=tag).accel(s), dtype=float)
+    elif kind == 2:
+        f = lambda s: np.asarray(KeplerianImpulsiveMan(d0, da=500.0, di=1e-4, dOmega=-2e-4).dv(s), dtype=float)
+    else:
+        f = lambda s: np.asarray(KeplerianContinuousMan(d0, timedelta(seconds=10), da=500.0, di=1e-4, dOmega=-2e-4).accel(s), dtype=float)
+    ref, got = f(cart), f(view)
+    c.ensure("same_for_every_form_of_the_state", bool(np.linalg.norm(got - ref) <= 1e-9 * np.linalg.norm(ref)))
+    if kind < 2:
+        r, v = np.asarray(r0), np.asarray(v0)
+        h = np.cross(r, v)
+        u3 = h / np.linalg.norm(h)
+        if tag == "TNW":
+            u1 = v / np.linalg.norm(v)
+        elif tag == "QSW":
+            u1 = r / np.linalg.norm(r)
+        if tag:
+            u2 = np.cross(u3, u1)
+            want = comp[0] * u1 + comp[1] * u2 + comp[2] * u3
+        else:
+            want = comp
+        c.ensure("stated_components_along_the_axes", bool(np.linalg.norm(got - want) <= 1e-9 * np.linalg.norm(want)))
